@@ -52,7 +52,7 @@ func c16Val(t string) (v interface{}, present bool) {
 	case "z":
 		return math.Copysign(0, -1), true
 	}
-	return tokVal(t)
+	return c04TokVal(t)
 }
 
 // c16Float: the float64 a numeric token converts to in numericKeyFloat (ok=false: not a number).
@@ -104,23 +104,23 @@ func c16Num(rng *rand.Rand) string {
 		}
 		return "i:" + strconv.FormatInt(base, 10)
 	case 3:
-		return valTok(float64(base), true)
+		return c04ValTok(float64(base), true)
 	case 4:
-		return valTok(float64(base)+0.5, true)
+		return c04ValTok(float64(base)+0.5, true)
 	case 5:
-		return valTok(strconv.FormatInt(base, 10), true) // the string "1"
+		return c04ValTok(strconv.FormatInt(base, 10), true) // the string "1"
 	case 6:
 		if base == 0 {
 			return "z"
 		}
-		return valTok([]float64{1e21, 1e-7, 1.5, -2.25}[rng.Intn(4)], true)
+		return c04ValTok([]float64{1e21, 1e-7, 1.5, -2.25}[rng.Intn(4)], true)
 	case 7:
 		if base < 1000 {
 			return "f:" + strconv.FormatInt(base, 10)
 		}
 		return "j:" + strconv.FormatInt(base, 10)
 	}
-	return valTok("n:"+strconv.FormatInt(base, 10), true) // the string that looks like an encoded number
+	return c04ValTok("n:"+strconv.FormatInt(base, 10), true) // the string that looks like an encoded number
 }
 
 func c16Comp(rng *rand.Rand, ty int) string {
@@ -135,7 +135,7 @@ func c16Comp(rng *rand.Rand, ty int) string {
 	if ty == 1 {
 		return c16Num(rng)
 	}
-	return valTok(c16Str(rng), true)
+	return c04ValTok(c16Str(rng), true)
 }
 
 // c16Pool: key tuples of one arity, with shifted siblings across the 0x1f separator and type-tag look-alikes.
@@ -151,17 +151,33 @@ func c16Pool(rng *rand.Rand, arity, size int) [][]string {
 			t[i] = c16Comp(rng, tys[i])
 		}
 		pool = append(pool, t)
+		// the same number in another Go type (or its text as a string) in one component
+		for i := range t {
+			if f, ok := c16Float(t[i]); ok && rng.Intn(4) > 0 && f == math.Trunc(f) && math.Abs(f) < 1e15 {
+				u := append([]string(nil), t...)
+				n := strconv.FormatInt(int64(f), 10)
+				alts := []string{"i:" + n, "j:" + n, c04ValTok(f, true), c04ValTok(n, true), c04ValTok(f+0.5, true)}
+				if f >= 0 {
+					alts = append(alts, "u:"+n)
+				}
+				if f == 0 {
+					alts = append(alts, "z")
+				}
+				u[i] = alts[rng.Intn(len(alts))]
+				pool = append(pool, u)
+			}
+		}
 		if arity >= 2 && rng.Intn(2) == 0 {
 			i := rng.Intn(arity - 1)
 			a, b, c2 := []string{"x", ""}[rng.Intn(2)], []string{"y", "", "\\"}[rng.Intn(3)], []string{"z", ""}[rng.Intn(2)]
 			u := append([]string(nil), t...)
 			w := append([]string(nil), t...)
 			if rng.Intn(2) == 0 { // ("x\x1fs:y","z") vs ("x","y\x1fs:z")
-				u[i], u[i+1] = valTok(a+"\x1fs:"+b, true), valTok(c2, true)
-				w[i], w[i+1] = valTok(a, true), valTok(b+"\x1fs:"+c2, true)
+				u[i], u[i+1] = c04ValTok(a+"\x1fs:"+b, true), c04ValTok(c2, true)
+				w[i], w[i+1] = c04ValTok(a, true), c04ValTok(b+"\x1fs:"+c2, true)
 			} else { // escape-byte siblings
-				u[i], u[i+1] = valTok(a+"\\", true), valTok("s:"+b+"\x1fs:"+c2, true)
-				w[i], w[i+1] = valTok(a+"\x1fs:"+b+"\\", true), valTok(c2, true)
+				u[i], u[i+1] = c04ValTok(a+"\\", true), c04ValTok("s:"+b+"\x1fs:"+c2, true)
+				w[i], w[i+1] = c04ValTok(a+"\x1fs:"+b+"\\", true), c04ValTok(c2, true)
 			}
 			pool = append(pool, u, w)
 		}
@@ -294,7 +310,7 @@ func c16TableRow(pid int, toks []string) map[string]interface{} {
 	return row
 }
 
-func keyFieldNames(prefix string, n int) []string {
+func c16KeyFieldNames(prefix string, n int) []string {
 	f := make([]string, n)
 	for i := range f {
 		f[i] = prefix + strconv.Itoa(i)
@@ -308,7 +324,7 @@ func c16Tbl(c Case, arity int) [][][]string {
 	var src *stream.MemoryTableSource
 	ensure := func() {
 		if src == nil {
-			src = stream.NewMemoryTableSource("meta", keyFieldNames("t", arity), initRows)
+			src = stream.NewMemoryTableSource("meta", c16KeyFieldNames("t", arity), initRows)
 		}
 	}
 	for _, op := range c.Ops {
@@ -355,8 +371,8 @@ func c16Tbl(c Case, arity int) [][][]string {
 }
 
 func c16JoinSQL(c Case, arity int, sel, tail string) string {
-	salias, talias := cfgVal(c, "salias", "0") == "1", cfgVal(c, "talias", "0") == "1"
-	swap := cfgVal(c, "swap", "0") == "1"
+	salias, talias := c04CfgVal(c, "salias", "0") == "1", c04CfgVal(c, "talias", "0") == "1"
+	swap := c04CfgVal(c, "swap", "0") == "1"
 	from, sp := "stream", ""
 	if salias {
 		from, sp = "stream s", "s."
@@ -365,7 +381,7 @@ func c16JoinSQL(c Case, arity int, sel, tail string) string {
 	if talias {
 		join, tp = "JOIN meta m", "m."
 	}
-	if cfgVal(c, "jt", "inner") == "left" {
+	if c04CfgVal(c, "jt", "inner") == "left" {
 		join = "LEFT " + join
 	}
 	var on []string
@@ -377,7 +393,7 @@ func c16JoinSQL(c Case, arity int, sel, tail string) string {
 		on = append(on, l+" = "+r)
 	}
 	sql := "SELECT " + strings.ReplaceAll(sel, "m.", tp) + " FROM " + from + " " + join + " ON " + strings.Join(on, " AND ")
-	if cfgVal(c, "where", "0") == "1" {
+	if c04CfgVal(c, "where", "0") == "1" {
 		sql += " WHERE " + tp + "grp = 1"
 	}
 	return sql + strings.ReplaceAll(tail, "m.", tp)
@@ -432,7 +448,7 @@ func c16SQL(c Case, arity int) [][][]string {
 }
 
 func c16SQLAgg(c Case, arity int) [][][]string {
-	n, _ := strconv.Atoi(cfgVal(c, "n", "1"))
+	n, _ := strconv.Atoi(c04CfgVal(c, "n", "1"))
 	s := streamsql.New(streamsql.WithDiscardLog())
 	defer s.Stop()
 	sql := c16JoinSQL(c, arity, "m.grp AS grp, count(*) AS c, collect(id) AS ids", fmt.Sprintf(" GROUP BY m.grp, CountingWindow(%d)", n))
@@ -469,7 +485,7 @@ func c16SQLAgg(c Case, arity int) [][][]string {
 			// sentinel: a table row with its own group value 7 and a key no generated key equals; n stream rows hit it
 			sk := make([]string, arity)
 			for i := range sk {
-				sk[i] = valTok("~sentinel~", true)
+				sk[i] = c04ValTok("~sentinel~", true)
 			}
 			trow := c16Row("t", sk)
 			trow["pid"], trow["grp"] = -1, 7
@@ -480,30 +496,32 @@ func c16SQLAgg(c Case, arity int) [][][]string {
 				s.Emit(row)
 			}
 			var lines [][]string
-			deadline := time.After(barrierDeadline())
+			deadline := time.After(c04BarrierDeadline())
 		wait:
 			for {
 				select {
 				case b := <-ch:
+					// a delivery is one window batch; the batch that holds sentinel rows (possibly mixed with
+					// trailing real rows, the window shares one count buffer here) is the barrier and is dropped whole
 					done := false
 					for _, r := range b {
-						if hasSentinel(r) {
+						if c04HasNegativeID(r) {
 							done = true
-						}
-						if !hasNegativeID(r) {
-							lines = append(lines, resultLine(r, []string{"grp"}))
 						}
 					}
 					if done {
 						break wait
 					}
+					for _, r := range b {
+						lines = append(lines, c04ResultLine(r, []string{"grp"}))
+					}
 				case <-deadline:
-					barrierFailed = true
+					c04BarrierFailed = true
 					lines = append(lines, []string{"sentinel-lost"})
 					break wait
 				}
 			}
-			out = append(out, sortLines(lines))
+			out = append(out, c04SortLines(lines))
 		default:
 			out = append(out, [][]string{{"bad-op"}})
 		}
@@ -512,8 +530,8 @@ func c16SQLAgg(c Case, arity int) [][][]string {
 }
 
 func (c16) Exec(c Case) [][][]string {
-	arity, _ := strconv.Atoi(cfgVal(c, "keys", "1"))
-	switch cfgVal(c, "mode", "enc") {
+	arity, _ := strconv.Atoi(c04CfgVal(c, "keys", "1"))
+	switch c04CfgVal(c, "mode", "enc") {
 	case "tbl":
 		return c16Tbl(c, arity)
 	case "sql":
